@@ -340,7 +340,8 @@ class ModelBase:
                 return const(str(cval(a0)))
             return AV(ty='str', deps=d, strof=a0.ty if a0 is not None else None)
         if name == 'bool':
-            return AV(ty='bool', deps=d)
+            # truth value of a comparison / reduction keeps what was compared / reduced
+            return AV(ty='bool', deps=d, cmp=a0.cmp if a0 is not None else None, red=a0.red if a0 is not None else None)
         if name == 'isinstance':
             return self.isinstance_(interp, st, args, node).w(deps=d)
         if name == 'hasattr':
